@@ -249,6 +249,26 @@ def _constant(_):
     return st
 
 
+def _directed(_):
+    """files whose scores include several distinct NEGATIVE values (final order must be numeric), and column names that contain characters the code uses in its own derived names"""
+    from mc.checks.c09 import data_text
+    st = Stats()
+    cases = [(data_text(24, ['a', 'b', 'c', 'd']), dict(minibatch_size=12, subsampling=1, target_ranking_only='False')),
+             (data_text(24, ['a', 'b', 'c', 'd']), dict(minibatch_size=8, subsampling=1, target_ranking_only='True', heuristic='correlation-Pearson')),
+             (data_text(18, ['a|b', 'c', 'a', 'b|c']), dict(minibatch_size=6, subsampling=1, target_ranking_only='False')),
+             (data_text(18, ['x-y', 'y', 'x', 'p&q', 'k(1; 2)']), dict(minibatch_size=9, subsampling=1, target_ranking_only='False'))]
+    for text, over in cases:
+        fails, info = pipeline.judge_streaming(text, over)
+        st.count('evaluations')
+        st.count('traces_validated')
+        st.count('directed_files')
+        st.count('nontrivial')
+        st.count('states', info.get('n_batches', 0) + 1)
+        for sig, msg in fails:
+            st.violation({'kind': 'directed', 'header': text.split('\n')[0], 'over': over}, msg, dict(sig, family='directed'))
+    return st
+
+
 def _edge(_):
     st = Stats()
     many_bad = render(tuple('gb' * 40 + 'ggg'), 'few')      # 40 malformed rows: more than a small bounded buffer of samples can hold
@@ -290,6 +310,8 @@ def _dispatch(item):
         return _gz(job)
     if k == 'constant':
         return _constant(job)
+    if k == 'directed':
+        return _directed(job)
     return {'small': _small, 'tail': _tail, 'edge': _edge}[k](job)
 
 
@@ -304,6 +326,7 @@ def run(ctx):
     jobs.append(('seqdiff', None))
     jobs.append(('gz', None))
     jobs.append(('constant', None))
+    jobs.append(('directed', None))
     for st in pmap(_dispatch, jobs):
         ctx.stats.merge(st)
     ctx.extra['k_max'] = kmax
@@ -315,6 +338,8 @@ def run(ctx):
 def eval_case(case):
     if case['kind'] == 'seqdiff':
         return seqdiff.replay(seq_call, SEQ_FILES, case['seq'])
+    if case['kind'] == 'directed':
+        return [v['what'] for v in _directed(None).violations if v['case']['header'] == case['header']]
     if case['kind'] == 'constant':
         return [v['what'] for v in _constant(None).violations if v['case']['lines'] == case['lines']]
     if case['kind'] == 'gz':
